@@ -316,6 +316,69 @@ def run(ctx, R, tier):
                 ("%s: with the flag off this path answers (uri, tags) pairs - or with it on, bare uris - where the other back-end / the other filter answers the opposite" % badshape[1]) if badshape else "")
     if n_entries < 8:
         raise AnalysisError("nameserver: fewer answer entries built under return_metadata than expected (%d)" % n_entries)
+    # a safe registration is refused for EVERY name that is present, whatever is stored under it: the refusal depends on `safe` and on the membership test only. A further
+    # condition (same uri, same owner, ...) lets a second registrant through, who is told it registered the name and replaces the first one's metadata
+    rg = ctx.fn("Pyro5.nameserver.NameServer.register")
+    rgcfg = ctx.cfg(rg)
+    refusals = [n for n in rgcfg.nodes if n.kind == "stmt" and isinstance(n.ast, ast.Raise) and n.ast.exc is not None and "already registered" in unparse(n.ast.exc, 200)]
+    if len(refusals) != 1 or "safe" not in rg.params:
+        raise AnalysisError("NameServer.register: the 'already registered' refusal or the safe parameter vanished")
+    seen_f, guards = set(), []
+    anc_tests = set()
+    cur_ = getattr(refusals[0].ast, "_parent", None)
+    while cur_ is not None and cur_ is not rg.node:
+        if isinstance(cur_, ast.If):
+            anc_tests.add(id(cur_.test))
+        cur_ = getattr(cur_, "_parent", None)
+    for e in [e for n in rgcfg.nodes for e in n.succ if e.test is not None and id(e.test) in anc_tests]:
+        for t in e.tests():
+            for atom, pol in facts_of(t, e.polarity):
+                key_ = (unparse(atom, 200), pol)
+                if key_ in seen_f:
+                    continue
+                seen_f.add(key_)
+                if rgcfg.guarded(refusals[0], lambda ed, a=key_: edge_has_fact(ed, lambda at, pl: (unparse(at, 200), pl) == a)):
+                    guards.append((atom, pol))
+    namep_ = rg.params[1]
+
+    def kind_of(atom, pol):
+        if isinstance(atom, ast.Name) and atom.id == "safe":
+            return "safe"
+        if isinstance(atom, ast.Compare) and len(atom.ops) == 1 and isinstance(atom.ops[0], (ast.In, ast.NotIn)) and unparse(atom.left) == namep_ and unparse(atom.comparators[0]) == "self.storage":
+            return "present"
+        if isinstance(atom, ast.Call) and isinstance(atom.func, ast.Attribute) and atom.func.attr == "__contains__" and unparse(atom.func.value) == "self.storage":
+            return "present"
+        return "other"
+    kinds = {kind_of(a, pl) for a, pl in guards}
+    extra = [(a, pl) for a, pl in guards if kind_of(a, pl) == "other"]
+    R.check({"safe", "present"} <= kinds and not extra, "C14-R3", "register|safe-refuses-every-name-that-is-present", "the 'already registered' refusal depends on `safe` and on `name in self.storage` only",
+            rg.loc(refusals[0].ast),
+            ("the refusal also requires `%s` to be %s: a safe registration of a name that IS present gets through in the other case - two registrants are both told they own the name"
+             % (unparse(extra[0][0], 60), extra[0][1])) if extra else "the refusal is no longer tied to both `safe` and the presence of the name")
+    # an answer is a snapshot on both back-ends: MemoryStorage.everything hands out a NEW dict (the sqlite back-end builds one per query) - the storage object itself as
+    # the answer is the live registry: it changes under the caller (or while the reply is serialised: "dictionary changed size during iteration"), and a caller that
+    # empties its "answer" empties the name server, its own entry included
+    mev = ctx.fn("Pyro5.nameserver.MemoryStorage.everything")
+    live = [r for r in walk_no_nested(mev.node) if isinstance(r, ast.Return) and r.value is not None and
+            (isinstance(r.value, (ast.Name, ast.Attribute)) or (isinstance(r.value, ast.Call) and isinstance(r.value.func, ast.Name) and r.value.func.id == "super"))]
+    R.check(not live, "C14-R3", "MemoryStorage.everything|answers-with-a-snapshot", "the in-memory listing returns a new dict on every path, like the sqlite one", mev.loc(live[0]) if live else mev.loc(),
+            "`%s` hands out the storage itself: list(return_metadata=True) on the in-memory back-end returns the live registry (it changes while the caller - or the reply "
+            "serialiser - looks at it; clearing it clears the name server), the sqlite back-end returns a fresh dict" % (unparse(live[0], 60) if live else ""))
+    # the database file is the one the operator named: the storage specification's path part reaches SqlStorage exactly as given (file systems are case sensitive)
+    nsd = ctx.fn("Pyro5.nameserver.NameServerDaemon.__init__")
+    sparam = "storage"
+    if sparam not in nsd.params:
+        raise AnalysisError("NameServerDaemon.__init__ has no `storage` parameter any more")
+    rewrites = [st for st, t, k in stores_in(nsd.node) if isinstance(t, ast.Name) and t.id == sparam and k == "assign" and
+                any(isinstance(c, ast.Call) and isinstance(c.func, ast.Attribute) and c.func.attr in ("lower", "upper", "casefold", "strip", "lstrip", "rstrip", "title", "capitalize", "swapcase", "replace", "normpath", "abspath", "realpath")
+                    for c in ast.walk(st.value))]
+    sq_calls = [c for c in walk_no_nested(nsd.node) if isinstance(c, ast.Call) and isinstance(c.func, ast.Name) and c.func.id == "SqlStorage"]
+    if not sq_calls:
+        raise AnalysisError("NameServerDaemon.__init__ no longer constructs SqlStorage")
+    R.check(not rewrites, "C14-R3", "NameServerDaemon|sql-file-path-taken-verbatim", "the `sql:<file>` specification is not case-folded, stripped or normalised before the file name is cut out of it", nsd.loc(rewrites[0]) if rewrites else nsd.loc(),
+            "`%s` rewrites the whole storage specification, file name included: the server opens another database file than the one named (on a case-sensitive file system "
+            "'Names.DB' becomes 'names.db'): the existing registrations are invisible and new ones go to the wrong file - after a restart the map is not the one that was stored"
+            % (unparse(rewrites[0], 70) if rewrites else ""))
     from .common import names_bound
     names_bound(ctx, R, "C14-R7", {"Pyro5.nameserver", "Pyro5.nsc"}, "an operation of the name server answers NameError instead of its result or its NamingError/KeyError, on one back-end or both")
     # ---------------------------------------------------------------- R4 / R6
